@@ -596,3 +596,1286 @@ def spec(*quals):
             SPECS[q] = f
         return f
     return deco
+
+
+# ---- rdm ------------------------------------------------------------------------------------------------
+@spec('rdm.rdms.RDMs.__init__')
+def _s_rdms_init(P, v, rec):
+    if v >= 3:
+        return None
+    n_rdm = 1 if v == 2 else 3
+    d = dict(dissimilarities=P.rdm_array(n_rdm), dissimilarity_measure='euclidean')
+    if P.flavour == 'plain':
+        return d
+    d['descriptors'] = {'roi': 'V1'}
+    if v == 2:      # scalar descriptor values (documented: converted to a one-element list)
+        d['rdm_descriptors'] = {'subj': 's7', 'sess': 3}
+        d['pattern_descriptors'] = _desc_dict(P, 5)
+    else:
+        d['rdm_descriptors'] = _desc_dict(P, n_rdm, 'rdm')
+        d['pattern_descriptors'] = _desc_dict(P, 5)
+    if v == 1:
+        from scipy.spatial.distance import squareform
+        d['dissimilarities'] = np.array([squareform(x) for x in d['dissimilarities']])
+    return d
+
+
+@spec('rdm.rdms.RDMs.__getitem__')
+def _s_getitem(P, v, rec):
+    return [dict(idx=1), dict(idx=[0, 2]), dict(idx=np.array([2, 2, 0])), None][min(v, 3)]
+
+
+def _by(P, kind):
+    if P.flavour == 'plain':
+        return 'index'
+    return 'conds' if kind == 'pattern' else 'subj'
+
+
+@spec('rdm.rdms.RDMs.subset_pattern', 'rdm.rdms.RDMs.subsample_pattern')
+def _s_subpat(P, v, rec):
+    if v >= 3:
+        return None
+    rep = rec.name.startswith('subsample')
+    if P.flavour == 'plain':
+        vals = [[0, 3, 4], [1, 1, 3, 4] if rep else [1, 2, 4], 2][v]
+        return dict(by=None if v == 0 else 'index', value=vals)
+    vals = [['c0', 'c3', 'c1'], ['c4', 'c4', 'c2', 'c0'] if rep else ['c4', 'c2', 'c0', 'c1'], 'c3'][v]
+    if v == 1:
+        vals = np.array(vals)
+    return dict(by='conds', value=vals)
+
+
+@spec('rdm.rdms.RDMs.subset', 'rdm.rdms.RDMs.subsample')
+def _s_sub(P, v, rec):
+    if v >= 3:
+        return None
+    rep = rec.name.startswith('subsample')
+    if P.flavour == 'plain':
+        return dict(by=None if v == 0 else 'index', value=[[0, 2], [1, 1, 3] if rep else [1, 3], 2][v])
+    vals = [['s0', 's2'], ['s3', 's3', 's1'] if rep else ['s3', 's1'], 's0'][v]
+    return dict(by='subj', value=vals)
+
+
+@spec('rdm.rdms.RDMs.append')
+def _s_append(P, v, rec):
+    if v >= 1:
+        return None
+    a = P.rdms()
+    return dict(self=a, rdm=P.rdms(n_rdm=2))
+
+
+@spec('rdm.rdms.RDMs.reorder')
+def _s_reorder(P, v, rec):
+    return [dict(new_order=np.array([4, 2, 0, 1, 3])), dict(new_order=[1, 0, 2, 4, 3]), None][min(v, 2)]
+
+
+@spec('rdm.rdms.RDMs.sort_by')
+def _s_sortby(P, v, rec):
+    if P.flavour == 'plain':
+        return [dict(kwargs={'index': [4, 3, 2, 1, 0]}), None][min(v, 1)]
+    return [dict(kwargs={'conds': 'alpha'}), dict(kwargs={'conds': ['c4', 'c3', 'c2', 'c1', 'c0']}),
+            dict(kwargs={'conds': np.array(['c1', 'c0', 'c2', 'c4', 'c3'])}, reindex=False), None][min(v, 3)]
+
+
+@spec('rdm.rdms.RDMs.mean')
+def _s_mean(P, v, rec):
+    if v == 0:
+        return dict(weights=None)
+    if v == 1:
+        return dict(weights=1.0 + P.rs.rand(P.n_rdm, 10))
+    if v == 2 and P.flavour != 'plain':
+        w = 1.0 + P.rs.rand(P.n_rdm, 10)
+        return dict(self=P.rdms(extra_rdm_desc={'w': w}), weights='w')
+    return None
+
+
+@spec('rdm.rdms.concat')
+def _s_concat(P, v, rec):
+    if v >= 3:
+        return None
+    a = P.rdms(n_rdm=2)
+    b = P.rdms(n_rdm=2, conds=['c0', 'c3', 'c1', 'c4', 'c2'])      # other pattern order: concat has to align it
+    c = P.rdms(n_rdm=1, conds=['c2', 'c4', 'c3', 'c0', 'c1'])
+    if v == 0:
+        return dict(rdms=(a, b))
+    if v == 1:
+        return dict(rdms=([a, b, c],))
+    return dict(rdms=(a, c), target_pdesc=None if P.flavour == 'plain' else 'conds')
+
+
+@spec('rdm.rdms.permute_rdms')
+def _s_perm(P, v, rec):
+    return [dict(p=np.array([2, 0, 3, 1, 4])), dict(p=np.array([4, 3, 2, 1, 0])), None][min(v, 2)]
+
+
+@spec('rdm.rdms.inverse_permute_rdms')
+def _s_iperm(P, v, rec):
+    if v >= 1:
+        return None
+    r = P.rdms()
+    r.descriptors['p_inv'] = np.array([1, 3, 0, 2, 4])
+    return dict(rdms=r)
+
+
+@spec('rdm.rdms.get_categorical_rdm')
+def _s_cat(P, v, rec):
+    return [dict(category_vector=[0, 1, 0, 2]), dict(category_vector=np.array([1, 1, 0, 2, 0])),
+            dict(category_vector=[[0, 1], [0, 2], [1, 1]]), None][min(v, 3)]
+
+
+def _rdm_dict(P):
+    d = dict(dissimilarities=P.rdm_array(3), descriptors={'roi': 'V1'}, dissimilarity_measure='euclidean',
+             rdm_descriptors=_desc_dict(P, 3, 'rdm'), pattern_descriptors=_desc_dict(P, 5))
+    if P.flavour == 'plain':
+        d['rdm_descriptors'], d['pattern_descriptors'] = {}, {}
+    return d
+
+
+@spec('rdm.rdms.rdms_from_dict')
+def _s_fromdict(P, v, rec):
+    if v >= 2:
+        return None
+    d = _rdm_dict(P)
+    if v == 1 and P.flavour != 'plain':      # the nested form written by the hdf5 writer for non-array values
+        d['pattern_descriptors']['conds'] = {str(i): c for i, c in enumerate(CONDS[:5])}
+    return dict(rdm_dict=d)
+
+
+@spec('rdm.rdms.load_rdm')
+def _s_load_rdm(P, v, rec):
+    if v >= 2:
+        return None
+    fn = P.path('in_rdm.' + ('pkl' if v else 'h5'))
+    P.rdms().save(fn, file_type='pkl' if v else 'hdf5', overwrite=True)
+    return dict(filename=fn)
+
+
+@spec('rdm.transform.geotopological_transform')
+def _s_geotopo(P, v, rec):
+    return [dict(low=0.2, up=0.8), dict(low=0.0, up=0.5), None][min(v, 2)]
+
+
+@spec('rdm.transform.rank_transform')
+def _s_rank(P, v, rec):
+    return [dict(method='average'), dict(method='ordinal'), None][min(v, 2)]
+
+
+@spec('rdm.transform.transform')
+def _s_transform(P, v, rec):
+    return [dict(fun=np.square), dict(fun=lambda x: x + 1), None][min(v, 2)]
+
+
+def _prec(P, n=5):
+    a = P.rs.randn(n + 3, n)
+    return np.linalg.inv(a.T @ a / (n + 3) + np.eye(n))
+
+
+CALC_METHODS = ['euclidean', 'correlation', 'mahalanobis', 'crossnobis', 'poisson', 'poisson_cv']
+
+
+@spec('rdm.calc.calc_rdm', 'rdm.calc_unbalanced.calc_rdm_unbalanced')
+def _s_calc(P, v, rec):
+    if P.flavour == 'plain':
+        if v >= 2:
+            return None
+        return dict(dataset=P.dataset(), method=['euclidean', 'correlation'][v], descriptor=None)
+    unb = rec.name.endswith('unbalanced')
+    if v < 6:
+        m = CALC_METHODS[v]
+        d = dict(dataset=P.dataset(positive=m.startswith('poisson')), method=m, descriptor='conds')
+        if m in ('crossnobis', 'poisson_cv'):
+            d['cv_descriptor'] = 'runs'
+        if m in ('mahalanobis', 'crossnobis'):
+            d['noise'] = _prec(P)
+        return d
+    if v == 6:
+        return dict(dataset=P.dataset(), method='crossnobis', descriptor='conds', cv_descriptor='runs',
+                    noise=[_prec(P), _prec(P)])
+    if v == 7:
+        return dict(dataset=[P.dataset(), P.dataset()], method='crossnobis', descriptor='conds', cv_descriptor='runs',
+                    noise=[_prec(P), _prec(P)])
+    if v == 8:
+        return dict(dataset=P.dataset(), method='crossnobis', descriptor='conds', cv_descriptor=None)
+    if v == 9 and not unb:
+        return dict(dataset=P.dataset(), method='euclidean', descriptor='conds', remove_mean=True)
+    if v == 10:
+        return dict(dataset=P.dataset(), method='euclidean', descriptor=None)
+    return None
+
+
+@spec('rdm.calc.calc_rdm_crossnobis', 'rdm.calc.calc_rdm_poisson_cv')
+def _s_crossnobis(P, v, rec):
+    if P.flavour == 'plain':
+        return None
+    pos = 'poisson' in rec.name
+    if v == 0:
+        return dict(dataset=P.dataset(positive=pos), descriptor='conds', cv_descriptor='runs')
+    if v == 1:
+        return dict(dataset=P.dataset(positive=pos), descriptor='conds', cv_descriptor=None)
+    if pos:
+        return None
+    if v == 2:
+        return dict(dataset=P.dataset(), descriptor='conds', cv_descriptor='runs', noise=_prec(P))
+    if v == 3:
+        return dict(dataset=P.dataset(), descriptor='conds', cv_descriptor='runs', noise=[_prec(P), _prec(P)])
+    if v == 4:
+        return dict(dataset=P.dataset(), descriptor='conds', cv_descriptor='runs', noise={0: _prec(P), 1: _prec(P)})
+    return None
+
+
+@spec('rdm.calc.calc_rdm_mahalanobis')
+def _s_mahal(P, v, rec):
+    d = None if P.flavour == 'plain' else 'conds'
+    return [dict(descriptor=d, noise=_prec(P)), dict(descriptor=d, noise=None), dict(descriptor=None, noise=_prec(P)),
+            None][min(v, 3)]
+
+
+@spec('rdm.calc.calc_rdm_euclidean', 'rdm.calc.calc_rdm_correlation')
+def _s_eucl(P, v, rec):
+    d = None if P.flavour == 'plain' else 'conds'
+    return [dict(descriptor=d), dict(descriptor=None), None][min(v, 2)]
+
+
+@spec('rdm.calc.calc_rdm_poisson')
+def _s_poisson(P, v, rec):
+    d = None if P.flavour == 'plain' else 'conds'
+    return [dict(dataset=P.dataset(positive=True), descriptor=d), None][min(v, 1)]
+
+
+@spec('rdm.calc.calc_rdm_movie')
+def _s_movie(P, v, rec):
+    if P.flavour == 'plain' or v >= 3:
+        return None
+    d = dict(dataset=P.tdataset(), descriptor='conds', time_descriptor='time')
+    if v == 1:
+        d['bins'] = [np.array([0., 1.]), np.array([2., 3.])]
+    if v == 2:
+        d.update(method='crossnobis', cv_descriptor='runs')
+    return d
+
+
+@spec('rdm.calc_unbalanced.calc_one_similarity')
+def _s_onesim(P, v, rec):
+    if v >= 3:
+        return None
+    X = P.rs.randn(3, 4)
+    Y = P.rs.randn(2, 4)
+    from rsatoolbox.data import Dataset
+    return dict(data_i=Dataset(X), data_j=Dataset(Y), cv_desc_i=np.array([0, 1, 2]), cv_desc_j=np.array([0, 1]),
+                method=['euclidean', 'mahalanobis', 'correlation'][v], noise=_prec(P, 4) if v == 1 else None)
+
+
+@spec('rdm.combine.from_partials')
+def _s_partials(P, v, rec):
+    if P.flavour == 'plain' or v >= 2:
+        return None
+    lst = [P.rdms(n_rdm=2, n_cond=4, conds=['a', 'b', 'c', 'd']), P.rdms(n_rdm=1, n_cond=3, conds=['d', 'e', 'a'])]
+    return dict(list_of_rdms=lst, descriptor='conds', all_patterns=None if v == 0 else ['e', 'd', 'c', 'b', 'a'])
+
+
+@spec('rdm.combine.rescale')
+def _s_rescale(P, v, rec):
+    return [dict(method='evidence'), dict(method='setsize'), dict(method='simple'), None][min(v, 3)]
+
+
+COMPARE_METHODS = ['cosine', 'corr', 'spearman', 'kendall', 'tau-a', 'rho-a', 'cosine_cov', 'corr_cov', 'neg_riem_dist',
+                   'bures', 'bures_metric']
+
+
+@spec('rdm.compare.compare')
+def _s_compare(P, v, rec):
+    if v >= len(COMPARE_METHODS) + 2:
+        return None
+    if v == len(COMPARE_METHODS):
+        return dict(rdm1=P.rdm_array(2), rdm2=P.rdm_array(3), method='cosine')
+    if v == len(COMPARE_METHODS) + 1:
+        return dict(method='cosine_cov', sigma_k=np.eye(5) + 0.1)
+    return dict(method=COMPARE_METHODS[v])
+
+
+@spec('rdm.compare.compare_cosine_cov_weighted', 'rdm.compare.compare_correlation_cov_weighted',
+      'rdm.compare.compare_neg_riemannian_distance')
+def _s_compare_sigma(P, v, rec):
+    return [dict(sigma_k=None), dict(sigma_k=np.eye(5) + 0.1), dict(sigma_k=np.arange(1., 6.)), None][min(v, 3)]
+
+
+@spec('rdm.pairs.pairs_by_percentile')
+def _s_pairs(P, v, rec):
+    return [dict(min=10, max=60), dict(min=0, max=100), None][min(v, 2)]
+
+
+# ---- data -----------------------------------------------------------------------------------------------
+@spec('data.base.DatasetBase.__init__')
+def _s_ds_init(P, v, rec):
+    if v >= 2:
+        return None
+    X, d, obs, ch = P.ds_parts()
+    return dict(measurements=X, descriptors=d, obs_descriptors=obs, channel_descriptors=ch, check_dims=bool(v == 0))
+
+
+@spec('data.dataset.TemporalDataset.__init__')
+def _s_td_init(P, v, rec):
+    if v >= 2:
+        return None
+    X, d, obs, ch, tm = P.td_parts()
+    if v == 1:
+        tm = None
+    return dict(measurements=X, descriptors=d, obs_descriptors=obs, channel_descriptors=ch, time_descriptors=tm)
+
+
+@spec('data.base.DatasetBase.split_obs', 'data.dataset.Dataset.split_obs', 'data.dataset.TemporalDataset.split_obs',
+      'data.dataset.Dataset.sort_by', 'data.dataset.TemporalDataset.sort_by', 'data.dataset.Dataset.get_measurements_tensor',
+      'data.dataset.Dataset.odd_even_split')
+def _s_by_obs(P, v, rec):
+    if P.flavour == 'plain':
+        return None
+    key = 'obs_desc' if rec.name == 'odd_even_split' else 'by'
+    return [{key: 'conds'}, {key: 'runs'}, None][min(v, 2)]
+
+
+@spec('data.base.DatasetBase.split_channel', 'data.dataset.Dataset.split_channel', 'data.dataset.TemporalDataset.split_channel')
+def _s_by_ch(P, v, rec):
+    if P.flavour == 'plain':
+        return None
+    return [dict(by='rois'), dict(by='vox'), None][min(v, 2)]
+
+
+@spec('data.base.DatasetBase.subset_obs', 'data.dataset.Dataset.subset_obs', 'data.dataset.TemporalDataset.subset_obs')
+def _s_sub_obs(P, v, rec):
+    if P.flavour == 'plain':
+        return None
+    return [dict(by='conds', value=['c0', 'c2']), dict(by='runs', value=1), dict(by='conds', value=np.array(['c1'])),
+            None][min(v, 3)]
+
+
+@spec('data.base.DatasetBase.subset_channel', 'data.dataset.Dataset.subset_channel',
+      'data.dataset.TemporalDataset.subset_channel')
+def _s_sub_ch(P, v, rec):
+    if P.flavour == 'plain':
+        return None
+    return [dict(by='rois', value='r1'), dict(by='vox', value=['v0', 'v2']), None][min(v, 2)]
+
+
+@spec('data.dataset.Dataset.nested_odd_even_split')
+def _s_nested(P, v, rec):
+    if P.flavour == 'plain' or v >= 1:
+        return None
+    from rsatoolbox.data import Dataset
+    n = 16
+    X = P.rs.randn(n, 3)
+    obs = {'sess': P.dvals([i // 8 for i in range(n)]), 'runs': P.dvals([(i // 2) % 4 for i in range(n)]),
+           'conds': P.dvals([['b', 'a'][i % 2] for i in range(n)])}
+    return dict(self=Dataset(X, obs_descriptors=obs, channel_descriptors={'vox': P.dvals(['x', 'y', 'z'])}),
+                l1_obs_desc='sess', l2_obs_desc='runs')
+
+
+@spec('data.dataset.Dataset.from_df')
+def _s_from_df(P, v, rec):
+    if v >= 2:
+        return None
+    import pandas
+    df = pandas.DataFrame({'ch_a': P.rs.randn(4), 'ch_b': P.rs.randn(4), 'conds': ['x', 'y', 'x', 'z'], 'subj': ['s1'] * 4})
+    return dict(df=df, channels=None if v == 0 else ['ch_b', 'ch_a'], channel_descriptor=None if v == 0 else 'nm')
+
+
+@spec('data.dataset.Dataset.to_df')
+def _s_to_df(P, v, rec):
+    if P.flavour == 'plain':
+        return None
+    return [dict(channel_descriptor=None), dict(channel_descriptor='vox'), None][min(v, 2)]
+
+
+@spec('data.dataset.TemporalDataset.split_time', 'data.dataset.TemporalDataset.time_as_observations',
+      'data.dataset.TemporalDataset.convert_to_dataset')
+def _s_by_time(P, v, rec):
+    if rec.name != 'split_time' and P.flavour != 'array':
+        # time_as_observations needs ndarray-valued obs_descriptors (it calls .copy() and np.concatenate on them)
+        if P.flavour != 'plain':
+            return None
+    return [dict(by='time'), None][min(v, 1)]
+
+
+@spec('data.dataset.TemporalDataset.bin_time')
+def _s_bin(P, v, rec):
+    return [dict(by='time', bins=[np.array([0., 1.]), np.array([2., 3.])]), None][min(v, 1)]
+
+
+@spec('data.dataset.TemporalDataset.subset_time')
+def _s_subtime(P, v, rec):
+    return [dict(by='time', t_from=1, t_to=2), dict(by='time', t_from=0, t_to=3), None][min(v, 2)]
+
+
+def _data_dict(P, temporal=False):
+    if temporal:
+        X, d, obs, ch, tm = P.td_parts()
+        return dict(measurements=X, descriptors=d or {}, obs_descriptors=obs or {}, channel_descriptors=ch or {},
+                    time_descriptors=tm or {'time': np.arange(4.)}, type='TemporalDataset')
+    X, d, obs, ch = P.ds_parts()
+    return dict(measurements=X, descriptors=d or {}, obs_descriptors=obs or {}, channel_descriptors=ch or {}, type='Dataset')
+
+
+@spec('data.dataset.dataset_from_dict')
+def _s_ds_fromdict(P, v, rec):
+    if v >= 3:
+        return None
+    d = _data_dict(P, temporal=(v == 1))
+    if v == 2:
+        d['type'] = 'DatasetBase'
+    return dict(data_dict=d)
+
+
+@spec('data.dataset.load_dataset')
+def _s_load_ds(P, v, rec):
+    if v >= 2:
+        return None
+    fn = P.path('in_ds.' + ('pkl' if v else 'h5'))
+    P.dataset().save(fn, file_type='pkl' if v else 'hdf5', overwrite=True)
+    return dict(filename=fn)
+
+
+@spec('data.dataset.merge_subsets', 'data.ops.merge_datasets')
+def _s_merge(P, v, rec):
+    if v >= 2:
+        return None
+    key = 'dataset_list' if rec.name == 'merge_subsets' else 'sets'
+    if v == 1:
+        return {key: [P.tdataset(), P.tdataset()]}
+    a = P.dataset()
+    if P.flavour == 'plain':
+        return {key: [a, P.dataset()]}
+    return {key: a.split_obs('runs') if False else [P.dataset(), P.dataset(n_rep=1)]}
+
+
+@spec('data.computations.average_dataset_by')
+def _s_avgby(P, v, rec):
+    if P.flavour == 'plain':
+        return None
+    return [dict(by='conds'), dict(by='runs'), None][min(v, 2)]
+
+
+@spec('data.noise.cov_from_measurements', 'data.noise.prec_from_measurements', 'data.noise.cov_from_unbalanced',
+      'data.noise.prec_from_unbalanced')
+def _s_noise_ds(P, v, rec):
+    if P.flavour == 'plain' or v >= 5:
+        return None
+    if v == 4:
+        return dict(dataset=[P.dataset(n_rep=3, n_ch=3), P.dataset(n_rep=3, n_ch=3)], obs_desc='conds', method='diag')
+    return dict(dataset=P.dataset(n_rep=3, n_ch=3), obs_desc='conds',
+                method=['shrinkage_diag', 'shrinkage_eye', 'diag', 'full'][v])
+
+
+@spec('data.noise.cov_from_residuals', 'data.noise.prec_from_residuals')
+def _s_noise_res(P, v, rec):
+    if v >= 6:
+        return None
+    if v == 4:
+        return dict(residuals=[P.rs.randn(10, 3), P.rs.randn(8, 3)], dof=[8, 6], method='diag')
+    if v == 5:
+        return dict(residuals=P.rs.randn(4, 10, 3), method='shrinkage_diag')
+    return dict(residuals=P.rs.randn(10, 3), method=['shrinkage_diag', 'shrinkage_eye', 'diag', 'full'][v],
+                dof=None if v % 2 else 8)
+
+
+# ---- model ----------------------------------------------------------------------------------------------
+@spec('model.fitter.Fitter.__init__')
+def _s_fitter_init(P, v, rec):
+    from rsatoolbox.model.fitter import fit_regress
+    return [dict(fit_fun=fit_regress, kwargs={'ridge_weight': 1.0}), None][min(v, 1)]
+
+
+@spec('model.fitter.Fitter.__call__')
+def _s_fitter_call(P, v, rec):
+    if v >= 1:
+        return None
+    from rsatoolbox.model.fitter import Fitter, fit_regress
+    return dict(self=Fitter(fit_regress, ridge_weight=1.0), model=P.model('weighted'), data=P.rdms(), args=(), more_args={})
+
+
+@spec('model.fitter.fit_mock', 'model.fitter.fit_select', 'model.fitter.fit_optimize', 'model.fitter.fit_optimize_positive',
+      'model.fitter.fit_interpolate', 'model.fitter.fit_regress', 'model.fitter.fit_regress_nn')
+def _s_fit(P, v, rec):
+    if v >= 4:
+        return None
+    d = dict(model=P.model(_model_kind_for(rec)), data=P.rdms())
+    if v == 1:
+        d.update(method='corr')
+    if v == 2:
+        d.update(pattern_idx=np.array([0, 2, 3, 4]), pattern_descriptor='index')
+    if v == 3:
+        if P.flavour == 'plain':
+            return None
+        d.update(pattern_idx=P.dvals(['c0', 'c3', 'c1', 'c2']), pattern_descriptor='conds')
+    return d
+
+
+@spec('model.model.Model.fit', 'model.model.Model.to_dict')
+def _s_model_base(P, v, rec):
+    if v >= 4:
+        return None
+    m = P.model(['fixed', 'select', 'weighted', 'interpolate'][v])
+    return dict(self=m, data=P.rdms()) if rec.name == 'fit' else dict(self=m)
+
+
+@spec('model.model.ModelFixed.predict', 'model.model.ModelFixed.predict_rdm', 'model.model.ModelWeighted.predict',
+      'model.model.ModelWeighted.predict_rdm', 'model.model.ModelInterpolate.predict', 'model.model.ModelInterpolate.predict_rdm')
+def _s_predict(P, v, rec):
+    if v >= 4:
+        return None
+    if v < 2:
+        return dict(theta=None)
+    return dict(theta=np.array([0.2, 0.5, 0.3])) if v == 2 else dict(theta=[0.0, 1.0, 2.0])
+
+
+@spec('model.model.ModelSelect.predict', 'model.model.ModelSelect.predict_rdm')
+def _s_predict_sel(P, v, rec):
+    if v >= 4:
+        return None
+    return dict(theta=v % 3)
+
+
+@spec('model.model.model_from_dict')
+def _s_model_fromdict(P, v, rec):
+    if v >= 5:
+        return None
+    t = ['ModelFixed', 'ModelSelect', 'ModelWeighted', 'ModelInterpolate', 'Model'][v]
+    d = _rdm_dict(P)
+    if t == 'ModelFixed':
+        d['dissimilarities'] = d['dissimilarities'][:1]
+        d['rdm_descriptors'] = {k: x[:1] for k, x in d['rdm_descriptors'].items()}
+    return dict(model_dict=dict(rdm=None if t == 'Model' else d, name='mm', type=t))
+
+
+@spec('model.model_family.ModelFamily.get_family_member')
+def _s_family(P, v, rec):
+    return [dict(family_index=0), dict(family_index=2), None][min(v, 2)]
+
+
+# ---- inference ------------------------------------------------------------------------------------------
+def _n(P, kind):
+    return 'index' if P.flavour == 'plain' else ('conds' if kind == 'pattern' else 'subj')
+
+
+def _inf_models(P, v):
+    if v % 3 == 0:
+        return P.models(('fixed', 'fixed'))
+    if v % 3 == 1:
+        return P.model('fixed')
+    return P.models(('fixed', 'weighted'))
+
+
+def _inf_data(P):
+    keep = P.n_cond
+    P.n_cond = 7
+    try:
+        return P.rdms(n_rdm=5, n_cond=7)
+    finally:
+        P.n_cond = keep
+
+
+def _model7(P, kind, name):
+    keep = P.n_cond
+    P.n_cond = 7
+    try:
+        return P.model(kind, name)
+    finally:
+        P.n_cond = keep
+
+
+def _inf_models7(P, v):
+    if v % 3 == 0:
+        return [_model7(P, 'fixed', 'm0'), _model7(P, 'fixed', 'm1')]
+    if v % 3 == 1:
+        return _model7(P, 'fixed', 'm0')
+    return [_model7(P, 'fixed', 'm0'), _model7(P, 'weighted', 'm1')]
+
+
+@spec('inference.boot_testset.bootstrap_testset', 'inference.boot_testset.bootstrap_testset_pattern',
+      'inference.boot_testset.bootstrap_testset_rdm')
+def _s_boot_testset(P, v, rec):
+    if v >= 3:
+        return None
+    d = dict(models=_inf_models7(P, v), data=_inf_data(P), N=3)
+    sig = inspect.signature(rec.func).parameters
+    if v >= 1:
+        if 'pattern_descriptor' in sig:
+            d['pattern_descriptor'] = _n(P, 'pattern')
+        if 'rdm_descriptor' in sig:
+            d['rdm_descriptor'] = _n(P, 'rdm')
+    return d
+
+
+@spec('inference.evaluate.eval_fixed', 'inference.evaluate.eval_bootstrap', 'inference.evaluate.eval_bootstrap_pattern',
+      'inference.evaluate.eval_bootstrap_rdm', 'inference.evaluate.eval_dual_bootstrap',
+      'inference.evaluate.eval_dual_bootstrap_random', 'inference.evaluate.bootstrap_crossval')
+def _s_eval(P, v, rec):
+    if v >= 3:
+        return None
+    sig = inspect.signature(rec.func).parameters
+    d = dict(models=_inf_models7(P, v), data=_inf_data(P))
+    if 'N' in sig:
+        d['N'] = 3
+    if v >= 1:
+        if 'pattern_descriptor' in sig:
+            d['pattern_descriptor'] = _n(P, 'pattern')
+        if 'rdm_descriptor' in sig:
+            d['rdm_descriptor'] = _n(P, 'rdm')
+    if v == 2 and 'theta' in sig:
+        d['theta'] = [None, np.array([0.5, 0.2, 0.3])]
+    if 'k_pattern' in sig and rec.name != 'eval_dual_bootstrap':
+        d.update(k_pattern=2, k_rdm=2)
+    return d
+
+
+def _cv_sets(P, data, v):
+    from rsatoolbox.inference import sets_k_fold
+    np.random.seed(3)
+    return sets_k_fold(data, k_rdm=2, k_pattern=2, random=False, pattern_descriptor=_n(P, 'pattern'),
+                       rdm_descriptor=_n(P, 'rdm'))
+
+
+@spec('inference.evaluate.crossval')
+def _s_crossval(P, v, rec):
+    if v >= 3:
+        return None
+    data = _inf_data(P)
+    tr, te, ce = _cv_sets(P, data, v)
+    return dict(models=_inf_models7(P, v), rdms=data, train_set=tr, test_set=te, ceil_set=ce if v != 1 else None,
+                pattern_descriptor=_n(P, 'pattern'))
+
+
+@spec('inference.noise_ceiling.cv_noise_ceiling')
+def _s_cvnc(P, v, rec):
+    if v >= 1:
+        return None
+    data = _inf_data(P)
+    tr, te, ce = _cv_sets(P, data, v)
+    return dict(rdms=data, ceil_set=ce, test_set=te, pattern_descriptor=_n(P, 'pattern'))
+
+
+@spec('inference.noise_ceiling.boot_noise_ceiling')
+def _s_bootnc(P, v, rec):
+    return [dict(rdms=_inf_data(P), rdm_descriptor=_n(P, 'rdm')), dict(rdms=_inf_data(P)), None][min(v, 2)]
+
+
+@spec('inference.bootstrap.bootstrap_sample', 'inference.bootstrap.bootstrap_sample_rdm',
+      'inference.bootstrap.bootstrap_sample_pattern')
+def _s_bootsample(P, v, rec):
+    if v >= 2:
+        return None
+    sig = inspect.signature(rec.func).parameters
+    d = dict(rdms=_inf_data(P))
+    if v == 0:
+        if 'pattern_descriptor' in sig:
+            d['pattern_descriptor'] = _n(P, 'pattern')
+        if 'rdm_descriptor' in sig:
+            d['rdm_descriptor'] = 'index' if P.flavour == 'plain' else 'sess'
+    return d
+
+
+@spec('inference.crossvalsets.sets_k_fold', 'inference.crossvalsets.sets_k_fold_pattern', 'inference.crossvalsets.sets_k_fold_rdm',
+      'inference.crossvalsets.sets_leave_one_out_pattern', 'inference.crossvalsets.sets_leave_one_out_rdm',
+      'inference.crossvalsets.sets_of_k_pattern', 'inference.crossvalsets.sets_of_k_rdm', 'inference.crossvalsets.sets_random')
+def _s_sets(P, v, rec):
+    if v >= 2:
+        return None
+    sig = inspect.signature(rec.func).parameters
+    d = dict(rdms=_inf_data(P))
+    if 'pattern_descriptor' in sig:
+        d['pattern_descriptor'] = _n(P, 'pattern') if v == 0 else ('index' if P.flavour == 'plain' else 'grp')
+    if 'rdm_descriptor' in sig:
+        d['rdm_descriptor'] = _n(P, 'rdm') if v == 0 else ('index' if P.flavour == 'plain' else 'sess')
+    if 'k' in sig:
+        d['k'] = 2
+    if 'k_rdm' in sig:
+        d['k_rdm'] = 2
+    if 'k_pattern' in sig:
+        d['k_pattern'] = 2
+    if 'random' in sig:
+        d['random'] = bool(v)
+    return d
+
+
+@spec('inference.result.Result.__init__')
+def _s_result_init(P, v, rec):
+    if v >= 3:
+        return None
+    models = P.models(('fixed', 'fixed')) if v != 1 else [P.model('fixed')]
+    nm = len(models)
+    var = None
+    if v == 2:
+        a = P.rs.rand(nm + 2, nm + 2)
+        var = a @ a.T
+    return dict(models=models if v != 1 else models[0], evaluations=P.rs.rand(4, nm, 3), method='cosine', cv_method='bootstrap',
+                noise_ceiling=P.rs.rand(2, 4) + 1 if v != 1 else [0.8, 0.9], variances=var, dof=3, n_rdm=4, n_pattern=5)
+
+
+@spec('inference.result.Result.get_ci')
+def _s_ci(P, v, rec):
+    return [dict(ci_percent=0.9), dict(ci_percent=0.5, test_type='bootstrap'), None][min(v, 2)]
+
+
+@spec('inference.result.Result.get_errorbars')
+def _s_eb(P, v, rec):
+    return [dict(eb_type='sem'), dict(eb_type='ci95'), dict(eb_type='sem', test_type='bootstrap'), None][min(v, 3)]
+
+
+@spec('inference.result.Result.test_all', 'inference.result.Result.test_noise', 'inference.result.Result.test_pairwise',
+      'inference.result.Result.test_zero', 'inference.result.Result.summary')
+def _s_tests(P, v, rec):
+    if v >= 3:
+        return None
+    return dict(self=P.result(with_var=(v != 1)), test_type=['t-test', 'bootstrap', 'ranksum'][v])
+
+
+def _result_dict(P):
+    from scipy.spatial.distance import squareform  # noqa: F401
+    md = {}
+    for i in range(2):
+        d = _rdm_dict(P)
+        d['dissimilarities'] = d['dissimilarities'][:1]
+        d['rdm_descriptors'] = {k: x[:1] for k, x in d['rdm_descriptors'].items()}
+        md[f'model_{i}'] = dict(rdm=d, name=f'm{i}', type='ModelFixed')
+    a = P.rs.rand(4, 4)
+    return dict(evaluations=P.rs.rand(4, 2, 3), dof=3, variances=a @ a.T, noise_ceiling=P.rs.rand(2, 4) + 1, method='cosine',
+                cv_method='bootstrap', models=md, n_rdm=4, n_pattern=5)
+
+
+@spec('inference.result.result_from_dict')
+def _s_result_fromdict(P, v, rec):
+    return [dict(result_dict=_result_dict(P)), None][min(v, 1)]
+
+
+@spec('inference.result.load_results')
+def _s_load_results(P, v, rec):
+    if v >= 2:
+        return None
+    fn = P.path('in_res.' + ('pkl' if v else 'h5'))
+    P.result().save(fn, file_type='pkl' if v else 'hdf5', overwrite=True)
+    return dict(filename=fn)
+
+
+# ---- util -----------------------------------------------------------------------------------------------
+@spec('util.data_utils.extract_dict', 'util.descriptor_utils.subset_descriptor')
+def _s_extract(P, v, rec):
+    if v >= 3:
+        return None
+    d = _desc_dict(P, 5)
+    d['index'] = P.dvals(range(5))
+    key = 'dictionary' if rec.name == 'extract_dict' else 'descriptor'
+    return {key: d, 'indices': [[0, 2], np.array([3, 1, 1]), 2][v]}
+
+
+@spec('util.descriptor_utils.bool_index', 'util.descriptor_utils.num_index')
+def _s_boolidx(P, v, rec):
+    if v >= 3:
+        return None
+    return dict(descriptor=P.dvals(CONDS[:5]), value=[['c0', 'c3'], 'c1', np.array(['c4', 'c2'])][v])
+
+
+@spec('util.descriptor_utils.check_descriptor_length', 'util.descriptor_utils.check_descriptor_length_error')
+def _s_checklen(P, v, rec):
+    if v >= 2:
+        return None
+    d = _desc_dict(P, 5) if v == 0 else {'a': 'xyz', 'b': P.dvals([1])}
+    out = dict(descriptor=d, n_element=5 if v == 0 else 1)
+    if rec.name.endswith('error'):
+        out['name'] = 'obs_descriptors'
+    return out
+
+
+@spec('util.descriptor_utils.dict_to_list')
+def _s_dict2list(P, v, rec):
+    if v >= 2:
+        return None
+    if v == 0:
+        return dict(d_dict={'conds': np.array(CONDS[:4]), 'n': np.array([3, 1, 2, 0])})
+    return dict(d_dict={'conds': {str(i): c for i, c in enumerate(CONDS[:4])}, 'n': P.dvals([3, 1, 2, 0])})
+
+
+@spec('util.descriptor_utils.desc_eq')
+def _s_desceq(P, v, rec):
+    return [dict(a=_desc_dict(P, 5), b=_desc_dict(P, 5)), dict(a=_desc_dict(P, 5), b=_desc_dict(P, 5, 'rdm')), None][min(v, 2)]
+
+
+@spec('util.descriptor_utils.parse_input_descriptor', 'util.descriptor_utils.format_descriptor')
+def _s_parse(P, v, rec):
+    if v >= 2:
+        return None
+    if v == 1 and rec.name == 'parse_input_descriptor':
+        return dict(descriptors=None)
+    return dict(descriptors=_desc_dict(P, 5))
+
+
+@spec('util.inference_util.all_tests', 'util.inference_util.nc_tests', 'util.inference_util.zero_tests',
+      'util.inference_util.pair_tests')
+def _s_alltests(P, v, rec):
+    if v >= 6:
+        return None
+    tt = ['t-test', 'bootstrap', 'ranksum'][v % 3]
+    nc2d = v < 3
+    sig = inspect.signature(rec.func).parameters
+    nb, nm = 6, 3
+    d = dict(evaluations=P.rs.rand(nb, nm), test_type=tt)
+    if 'noise_ceil' in sig:
+        d['noise_ceil'] = (P.rs.rand(2, nb) + 1) if nc2d else (P.rs.rand(2) + 1)
+    if 'model_var' in sig:
+        d['model_var'] = P.rs.rand(nm) + 0.1
+    if 'diff_var' in sig:
+        d['diff_var'] = P.rs.rand(nm * (nm - 1) // 2) + 0.1
+    if 'noise_ceil_var' in sig:
+        d['noise_ceil_var'] = P.rs.rand(nm, 2) + 0.1
+    if 'dof' in sig:
+        d['dof'] = 5
+    return d
+
+
+@spec('util.inference_util.extract_variances')
+def _s_extractvar(P, v, rec):
+    if v >= 4:
+        return None
+    a = P.rs.rand(5, 5)
+    cov = a @ a.T
+    if v == 0:
+        return dict(variance=cov, nc_included=True)
+    if v == 1:
+        return dict(variance=cov[:3, :3], nc_included=False)
+    if v == 2:
+        return dict(variance=np.diag(cov), nc_included=True)
+    return dict(variance=np.array([cov, cov * 1.5, cov * 2.0]), nc_included=True, n_rdm=5, n_pattern=7)
+
+
+@spec('util.inference_util.get_errorbars')
+def _s_geb(P, v, rec):
+    if v >= 3:
+        return None
+    return dict(model_var=P.rs.rand(3) + 0.1, evaluations=P.rs.rand(6, 3), dof=5, error_bars=['sem', 'ci95', 'sem'][v],
+                test_type=['t-test', 't-test', 'bootstrap'][v])
+
+
+@spec('util.inference_util.input_check_model')
+def _s_icm(P, v, rec):
+    if v >= 3:
+        return None
+    from rsatoolbox.model.fitter import fit_mock
+    if v == 0:
+        return dict(models=P.models(('fixed', 'weighted')), theta=None, fitter=None, N=3)
+    if v == 1:
+        return dict(models=P.model('weighted'), theta=np.array([1., 2., 3.]), fitter=fit_mock, N=2)
+    return dict(models=P.models(('fixed', 'weighted')), theta=[None, np.array([1., 2., 3.])], fitter=[fit_mock, fit_mock], N=2)
+
+
+@spec('util.inference_util.t_tests', 'util.inference_util.t_test_0', 'util.inference_util.t_test_nc')
+def _s_ttests(P, v, rec):
+    if v >= 2:
+        return None
+    ev = P.rs.rand(6, 3)
+    if rec.name == 't_tests':
+        var = P.rs.rand(3) + 0.1
+    else:
+        var = P.rs.rand(3) + 0.1
+    d = dict(evaluations=ev, variances=var, dof=5)
+    if rec.name == 't_test_nc':
+        d['noise_ceil'] = 0.9 if v == 0 else np.array(0.9)
+    return d
+
+
+@spec('util.inference_util.ranksum_value_test')
+def _s_rsv(P, v, rec):
+    return [dict(comp_value=0), dict(comp_value=0.5), None][min(v, 2)]
+
+
+@spec('util.inference_util.pool_rdm', 'util.pooling.pool_rdm')
+def _s_pool(P, v, rec):
+    ms = ['cosine', 'corr', 'spearman', 'rho-a', 'kendall', 'neg_riem_dist', 'cosine_cov', 'corr_cov']
+    if v >= len(ms):
+        return None
+    return dict(method=ms[v])
+
+
+@spec('util.matrix.get_v')
+def _s_getv(P, v, rec):
+    from scipy.sparse import csr_matrix
+    return [dict(n_cond=4, sigma_k=None), dict(n_cond=4, sigma_k=csr_matrix(np.eye(4) * 2.0)), None][min(v, 2)]
+
+
+@spec('util.matrix.indicator')
+def _s_indicator(P, v, rec):
+    return [dict(index_vector=np.array([0, 1, 0, 2, 1]), positive=False), dict(index_vector=np.array([0., 1., 0., 2.]), positive=True),
+            None][min(v, 2)]
+
+
+@spec('util.matrix.square_category_binary_mask')
+def _s_sqmask(P, v, rec):
+    return [dict(category_idxs=[0, 2], size=4), None][min(v, 1)]
+
+
+@spec('util.matrix.square_between_category_binary_mask')
+def _s_sqmask2(P, v, rec):
+    return [dict(category_1_idxs=[0, 2], category_2_idxs=[1], size=4), None][min(v, 1)]
+
+
+@spec('util.rdm_utils.add_pattern_index')
+def _s_addidx(P, v, rec):
+    return [dict(pattern_descriptor=_n(P, 'pattern')), None][min(v, 1)]
+
+
+@spec('util.rdm_utils.category_condition_idxs')
+def _s_catidx(P, v, rec):
+    if v >= 2:
+        return None
+    if v == 0:
+        return dict(category_selector=[0, 1, 0, 2, 1])
+    if P.flavour == 'plain':
+        return None
+    return dict(category_selector='grp')
+
+
+@spec('util.searchlight.get_volume_searchlight')
+def _s_vol(P, v, rec):
+    if v >= 1:
+        return None
+    m = np.ones((4, 4, 4))
+    m[0] = 0
+    return dict(mask=m, radius=1, threshold=0.5)
+
+
+@spec('util.searchlight.get_searchlight_RDMs')
+def _s_slrdms(P, v, rec):
+    if v >= 2:
+        return None
+    return dict(data_2d=P.rs.randn(6, 8), centers=np.array([1, 4, 6]), neighbors=[np.array([0, 1, 2]), np.array([3, 4, 5]), np.array([5, 6, 7])],
+                events=np.array([0, 1, 2, 0, 1, 2]) if v == 0 else [2, 1, 0, 2, 1, 0], method='correlation', verbose=False)
+
+
+@spec('util.searchlight.evaluate_models_searchlight')
+def _s_evalsl(P, v, rec):
+    if v >= 1:
+        return None
+    from rsatoolbox.inference import eval_fixed
+    return dict(sl_RDM=P.rdms(), models=P.models(('fixed', 'fixed')), eval_function=eval_fixed, method='corr', n_jobs=1)
+
+
+def _sqform(P):
+    from scipy.spatial.distance import squareform
+    return squareform(np.abs(P.rdm_array(1)[0]))
+
+
+@spec('util.vis_utils.smacof')
+def _s_smacof(P, v, rec):
+    if v >= 2:
+        return None
+    D = _sqform(P)
+    W = None if v == 0 else np.ones_like(D)
+    return dict(dissimilarities=np.nan_to_num(D), n_init=1, max_iter=5, random_state=0, weight=W)
+
+
+@spec('util.vis_utils.Weighted_MDS.fit', 'util.vis_utils.Weighted_MDS.fit_transform')
+def _s_mds(P, v, rec):
+    if v >= 2:
+        return None
+    from rsatoolbox.util.vis_utils import Weighted_MDS
+    D = np.nan_to_num(_sqform(P))
+    return dict(self=Weighted_MDS(n_init=1, max_iter=5, random_state=0, dissimilarity='precomputed'), X=D,
+                weight=None if v == 0 else np.ones_like(D))
+
+
+@spec('util.vis_utils.Weighted_MDS.__init__')
+def _s_mds_init(P, v, rec):
+    return [dict(n_components=2, n_init=1, max_iter=5, random_state=0), None][min(v, 1)]
+
+
+@spec('util.vis_utils.weight_to_matrices')
+def _s_w2m(P, v, rec):
+    if v >= 3:
+        return None
+    from scipy.spatial.distance import squareform
+    a = np.abs(P.rdm_array(3))
+    return dict(x=[a, np.array([squareform(r) for r in a]), a[0]][v])
+
+
+@spec('util.file_io.remove_file')
+def _s_rmfile(P, v, rec):
+    if v >= 1:
+        return None
+    fn = P.path('to_remove.txt')
+    with open(fn, 'w') as f:
+        f.write('x')
+    return dict(file=fn)
+
+
+MAX_VARIANTS = 13
+AUTO_VARIANTS = 3
+
+
+# =====================================================================================================
+# execution
+# =====================================================================================================
+@contextlib.contextmanager
+def _quiet():
+    with warnings.catch_warnings(), np.errstate(all='ignore'), \
+            contextlib.redirect_stdout(io.StringIO()), contextlib.redirect_stderr(io.StringIO()):
+        warnings.simplefilter('ignore')
+        yield
+
+
+class NotExercised(Exception):
+    pass
+
+
+def _invoke(case, tmp):
+    """build pool arguments for `case` and call the real function.  -> (rec, args, result)"""
+    rec = recs().get(case['fn'])
+    if rec is None:
+        raise NotExercised(f"callable {case['fn']} does not exist on this tree")
+    P = Pool(case['seed'], case['flavour'], tmp)
+    try:
+        call, args = build_call(rec, P, case['variant'])
+    except Skip as e:
+        raise NotExercised(f'skip: {e}')
+    np.random.seed(1000 + case['seed'])
+    return rec, args, call
+
+
+def _base(case):
+    return {k: case[k] for k in ('fn', 'flavour', 'variant', 'seed')}
+
+
+_CACHE = {}
+
+
+def _cached(kind, case, fn):
+    key = (kind, json.dumps(_base(case), sort_keys=True))
+    if key not in _CACHE:
+        if len(_CACHE) > 64:
+            _CACHE.clear()
+        _CACHE[key] = fn(_base(case))
+    return _CACHE[key]
+
+
+def frame_diffs(case):
+    """-> ('ok', [(label, description)]) | ('not-exercised', reason)"""
+    tmp = tempfile.mkdtemp(prefix='c12_')
+    try:
+        with _quiet():
+            try:
+                rec, args, call = _invoke(case, tmp)
+            except NotExercised as e:
+                return 'not-exercised', str(e)
+            before = {n: fp(a) for n, a in args.items()}
+            try:
+                call()
+            except Exception as e:   # the generated arguments are not valid for this callable: clause not applicable
+                return 'not-exercised', f'call raised {type(e).__name__}: {str(e)[:150]}'
+            after = {n: fp(a) for n, a in args.items()}
+        allowed = MUTATORS.get(rec.qual)
+        out = []
+        for n in args:
+            if n == allowed:
+                continue
+            for comp, desc in fp_diff(before[n], after[n]):
+                out.append((f'{rec.short}:modifies-{n}{comp}', f'{rec.short}({case["flavour"]},v{case["variant"]}) changed its argument '
+                            f'{n}{desc}'))
+        return 'ok', out
+    finally:
+        shutil.rmtree(tmp, ignore_errors=True)
+
+
+# ---- in-place operations applied to one side ----------------------------------------------------------
+def _targets(o, path='', desc=False, out=None, seen=None, depth=0):
+    """walk the object graph: -> list of (kind, object, path) with kind in rdms / dataset / data-array / desc-array"""
+    if out is None:
+        out, seen = [], set()
+    if depth > 8 or id(o) in seen:
+        return out
+    if isinstance(o, (str, bytes, int, float, bool, type(None), np.generic)):
+        return out
+    seen.add(id(o))
+    if isinstance(o, np.ndarray):
+        out.append(('desc-array' if desc else 'data-array', o, path))
+        return out
+    tn = type(o).__name__
+    mro = [c.__name__ for c in type(o).__mro__]
+    if 'RDMs' in mro and _is_rsa(o):
+        out.append(('rdms', o, path))
+    elif 'DatasetBase' in mro and _is_rsa(o):
+        out.append(('dataset', o, path))
+    if isinstance(o, dict):
+        for k, v in o.items():
+            if desc and k == 'index':
+                continue
+            _targets(v, f'{path}[{k!r}]', desc or str(k).endswith('descriptors'), out, seen, depth + 1)
+    elif isinstance(o, (list, tuple)):
+        for i, v in enumerate(o):
+            _targets(v, f'{path}[{i}]', desc, out, seen, depth + 1)
+    elif _is_rsa(o) and hasattr(o, '__dict__'):
+        for k, v in vars(o).items():
+            _targets(v, f'{path}.{k}', k.endswith('descriptors'), out, seen, depth + 1)
+    elif type(o).__module__.startswith('scipy.sparse') and hasattr(o, 'data') and isinstance(o.data, np.ndarray):
+        out.append(('data-array', o.data, path + '.data'))
+    del tn
+    return out
+
+
+def _scribble(a):
+    if not isinstance(a, np.ndarray) or a.size == 0 or not a.flags.writeable:
+        return False
+    k = a.dtype.kind
+    if k == 'f' or k == 'c':
+        a[...] = -9876.5
+    elif k == 'b':
+        a[...] = ~a
+    elif k in 'iu':
+        a[...] = a ^ 0x55
+    elif k == 'U':
+        a[...] = 'Z'
+    else:
+        return False
+    return True
+
+
+def _unsorted_key(d, n):
+    for k, v in d.items():
+        if k == 'index' or v is None:
+            continue
+        try:
+            vals = list(v)
+            if len(vals) == n and n > 1 and not isinstance(vals[0], (list, dict, np.ndarray)):
+                o = np.argsort(vals, kind='stable')
+                if not np.array_equal(o, np.arange(n)):
+                    return k
+        except Exception:
+            continue
+    return None
+
+
+MUTS = ('reorder', 'sort_by', 'append', 'dataset-sort_by', 'array-write', 'descriptor-array-write')
+
+
+def _apply(mut, targets):
+    """apply the documented in-place operation `mut` to every applicable target; -> number of applications"""
+    from rsatoolbox.rdm import RDMs
+    n = 0
+    for kind, t, _ in targets:
+        try:
+            if mut == 'reorder' and kind == 'rdms' and t.n_cond >= 2:
+                t.reorder(np.arange(t.n_cond)[::-1])
+                n += 1
+            elif mut == 'sort_by' and kind == 'rdms' and t.n_cond >= 2:
+                k = _unsorted_key(t.pattern_descriptors, t.n_cond)
+                if k is not None:
+                    t.sort_by(**{k: 'alpha'})
+                else:
+                    idx = list(t.pattern_descriptors['index'])
+                    if len(set(map(str, idx))) != len(idx):
+                        continue
+                    t.sort_by(index=idx[::-1])
+                n += 1
+            elif mut == 'append' and kind == 'rdms':
+                rd = {}
+                for k, v in t.rdm_descriptors.items():
+                    if k != 'index':
+                        rd[k] = [copy.deepcopy(list(v)[0])]
+                extra = RDMs(np.full((1, t.dissimilarities.shape[1]), 7.25), dissimilarity_measure=t.dissimilarity_measure,
+                             rdm_descriptors=rd)
+                t.append(extra)
+                n += 1
+            elif mut == 'dataset-sort_by' and kind == 'dataset' and hasattr(t, 'sort_by'):
+                k = _unsorted_key(t.obs_descriptors, t.n_obs)
+                if k is None:
+                    continue
+                t.sort_by(k)
+                n += 1
+            elif mut == 'array-write' and kind == 'data-array':
+                n += bool(_scribble(t))
+            elif mut == 'descriptor-array-write' and kind == 'desc-array':
+                n += bool(_scribble(t))
+        except Exception:
+            continue
+    return n
+
+
+def _has_mutable(o):
+    return bool(_targets(o)) or any(isinstance(x, (list, dict)) for x in [o])
+
+
+def fresh_diffs(case, muts=MUTS):
+    """-> ('ok', [(label, description)], n_applied) | ('not-exercised', reason)"""
+    rec0 = recs().get(case['fn'])
+    if rec0 is None:
+        return 'not-exercised', 'no such callable', 0
+    if rec0.qual in MUTATORS or rec0.qual in VIEW_BY_CONTRACT:
+        return 'not-exercised', 'in-place operation / view by contract: clause 2 not applicable', 0
+    out, applied = [], 0
+    for direction in ('child', 'parent'):
+        for mut in muts:
+            tmp = tempfile.mkdtemp(prefix='c12_')
+            try:
+                with _quiet():
+                    try:
+                        rec, args, call = _invoke(case, tmp)
+                        result = call()
+                    except NotExercised as e:
+                        return 'not-exercised', str(e), 0
+                    except Exception as e:
+                        return 'not-exercised', f'call raised {type(e).__name__}: {str(e)[:150]}', 0
+                    if result is None or isinstance(result, (str, bytes, int, float, bool, complex, np.generic)):
+                        return 'ok', [], 0       # a number / nothing: cannot be aliased
+                    src = list(args.values())
+                    touched, other = (result, src) if direction == 'child' else (src, result)
+                    tg = _targets(touched)
+                    if not tg:
+                        continue
+                    before = fp(other)
+                    k = _apply(mut, tg)
+                    if not k:
+                        continue
+                    applied += k
+                    after = fp(other)
+                d = fp_diff(before, after)
+                if d:
+                    verb = 'relabels' if all('descriptors' in c for c, _ in d) else 'rewrites'
+                    who, whom = ('child', 'parent') if direction == 'child' else ('parent', 'child')
+                    names = list(args.keys())
+
+                    def nm(desc):
+                        if direction == 'child' and desc.startswith('['):
+                            i = int(desc[1:desc.index(']')])
+                            return names[i] + desc[desc.index(']') + 1:]
+                        return ('result' if direction == 'parent' else '') + desc
+                    out.append((f'{rec.short}:{who}-{mut}-{verb}-{whom}',
+                                f'{rec.short}({case["flavour"]},v{case["variant"]}): {mut} on the {"result" if who == "child" else "source"} '
+                                f'changed the {"source" if who == "child" else "result"}: ' + '; '.join(nm(x) for _, x in d[:3])))
+            finally:
+                shutil.rmtree(tmp, ignore_errors=True)
+    return 'ok', out, applied
+
+
+def dev_survey(flavours=FLAVOURS, only=None):
+    """development helper: which callables can be exercised, which diffs appear"""
+    import time
+    for q, rec in recs().items():
+        if only and only not in q:
+            continue
+        nv = MAX_VARIANTS if q in SPECS else AUTO_VARIANTS
+        stat, labels, why = 0, set(), set()
+        t0 = time.time()
+        for fl in flavours:
+            for v in range(nv):
+                case = dict(fn=q, flavour=fl, variant=v, seed=0)
+                st, d = frame_diffs(case)
+                if st != 'ok':
+                    if 'no such variant' in d:
+                        break
+                    why.add(d[:110])
+                    continue
+                stat += 1
+                labels |= {x for x, _ in d}
+                st2, d2, k = fresh_diffs(case)
+                if st2 == 'ok':
+                    labels |= {x for x, _ in d2}
+        print(f'{q}: ok={stat} t={time.time()-t0:.2f}')
+        for x in sorted(labels):
+            print('     #', x)
+        if not stat:
+            for w in sorted(why):
+                print('     !', w)
